@@ -53,8 +53,10 @@ template <typename X> static L toL(const X& s) {
 // shape menu (index -> shape); the quick tier uses the first NQUICK entries
 // (the menu contains pairs that differ ONLY in the leading extent - (1,3)/(2,3), (3,2)/(4,2), (2,3)/(3,3) - and only in a trailing one: a seeded change
 //  that kept a stale column-major offset functor when a resize changed nothing but the leading extent was missed by the first menu, which had no such pair in the quick tier)
-static const std::vector<L>& menu() { static std::vector<L> m = {{6}, {2, 3}, {3, 2}, {1, 3}, {4, 2}, {8}, {2, 2, 2}, {1, 2, 3}, {9}, {1, 1, 2, 3}, {2}, {1, 6}, {2, 4}, {3, 3}, {2, 3, 2}, {4, 1}, {1, 1, 1}, {1, 2, 2}}; return m; }
-enum { NQUICK = 11 };
+static const std::vector<L>& menu() { static std::vector<L> m = {{6}, {2, 3}, {3, 2}, {1, 3}, {4, 2}, {8}, {2, 2, 2}, {1, 2, 3}, {9}, {1, 1, 2, 3}, {2}, {5, 1}, {1, 5}, {1, 6}, {2, 4}, {3, 3}, {2, 3, 2}, {4, 1}, {1, 1, 1}, {1, 2, 2}}; return m; }
+// (5,1) / (1,5): dim-2 requests that exceed ONE per-axis bound of the clipped kinds (4) while their element count fits the product of the bounds - a refused resize that
+// must not touch the buffer (seeded change m20c replaced the per-axis pre-check by a product check; the quick menu had no such entry)
+enum { NQUICK = 13 };
 enum SK { CS, LS, FS, HS, DS, LS6 };   // shape kinds: constant, clipped (bound 4), fixed dim, bounded dim, dynamic dim, clipped (bound 6)
 enum BK { FB, HB, DB };           // buffer kinds: fixed, bounded, dynamic
 
